@@ -1,6 +1,7 @@
 package main
 
 import (
+	"go/types"
 	"go/token"
 	"strings"
 
@@ -74,13 +75,20 @@ func ruleTreeGen(c *Ctx, r *R) {
 			continue
 		}
 		snap := false
-		instrs(fn, func(b *ssa.BasicBlock, i int, in ssa.Instruction) {
-			if st, ok := in.(*ssa.Store); ok {
-				if _, f, ok := storedField(st.Addr); ok && f == "gen" && strings.HasSuffix(path(st.Val), ".t.gen") {
-					snap = true
+		for _, di := range deepInstrs(fn, 2) {
+			if st, ok := di.in.(*ssa.Store); ok {
+				fa, ok := st.Addr.(*ssa.FieldAddr)
+				if !ok || !isNamedType(fa.X.Type(), treeRel, "cursor") || !isIntType(fa.Type().(*types.Pointer).Elem()) {
+					continue
+				}
+				// the stored value: the tree's generation (an int field of the btree)
+				if ld, ok := resolveVal(st.Val).(*ssa.UnOp); ok {
+					if src, ok := ld.X.(*ssa.FieldAddr); ok && isNamedType(src.X.Type(), treeRel, "btree") && fieldName(src.X.Type(), src.Field) == "gen" {
+						snap = true
+					}
 				}
 			}
-		})
+		}
 		r.ok(snap, "cursor."+n+"|snapshots-gen", fn.Pos(), "a cursor that (re)positions itself must record the tree's current gen")
 	}
 }
